@@ -158,6 +158,22 @@ def _record(col, comp, ctxname):
         col.violation(sig, case, detail)
 
 
+def run_fuzz_shard(shard):
+    """coverage-guided layer (Atheris): bytes -> structured case, the same oracle inside the target"""
+    from pbt import fuzz
+
+    _, tier, sd, k = shard
+    col = Collector()
+    seeds = [] if k % 2 == 0 else [bytes(range(1, 65)), b"\x02" * 40, b"\x07\x01\x09" * 20]
+    found, runs, note = fuzz.campaign("c18", 200000, sd, seeds)
+    col.evaluations += runs
+    col.count("atheris_executions", runs)
+    col.notes["atheris"] = [note + (" (empty corpus)" if not seeds else " (seeded corpus)")]
+    for f in found:
+        col.violation(f["sig"], f["case"], f["detail"])
+    return col
+
+
 def shards(tier, sd):
     out = []
     for k, d0 in enumerate(DIGITS):
@@ -166,10 +182,14 @@ def shards(tier, sd):
     n = 4 if tier == "quick" else 16
     for k in range(n):
         out.append(("random", tier, sd * 1000 + k, 0, None))
+    if tier == "thorough":
+        out += [("fuzz", tier, sd * 1000 + 500 + k, k) for k in range(4)]
     return out
 
 
 def run_shard(shard):
+    if shard[0] == "fuzz":
+        return run_fuzz_shard(shard)
     kind, tier, sd, d0, d1 = shard
     col = Collector()
     if kind == "grid":
